@@ -3,6 +3,7 @@ CONSTANTS
   K = 4
   N = 2
   MaxFreeze = 0
+  MaxCancel = 0
   Twin = "release_twice"
   Record = FALSE
 INVARIANTS
